@@ -6,11 +6,12 @@ Definition gen_facts : facts :=
   {| Server.pool_close_drops := Gen_server.pool_close_drops; Server.pool_fail_discards := Gen_server.pool_fail_discards;
      Server.fork_parent_keeps := Gen_server.fork_parent_keeps; Server.pool_catches_base := Gen_server.pool_catches_base;
      Server.worker_tracks_served := Gen_server.worker_tracks_served; Server.accept_survives_oserror := Gen_server.accept_survives_oserror;
-     Server.accept_rechecks_closed := Gen_server.accept_rechecks_closed |}.
+     Server.accept_rechecks_closed := Gen_server.accept_rechecks_closed;
+     Server.accept_survives_spawn_failure := Gen_server.accept_survives_spawn_failure |}.
 
 Lemma tie_base_progs :
   Gen_server.close_prog = Server.close_prog
-  /\ Gen_server.accept_prog = Server.accept_prog_of Gen_server.accept_survives_oserror Gen_server.accept_rechecks_closed
+  /\ Gen_server.accept_prog = Server.accept_prog_of Gen_server.accept_survives_oserror Gen_server.accept_rechecks_closed Gen_server.accept_survives_spawn_failure
   /\ Gen_server.worker_prog = Server.worker_prog_of Gen_server.worker_tracks_served /\ Gen_server.serve_client_prog = Server.serve_client_prog
   /\ Gen_server.handle_prog = Server.handle_prog /\ Gen_server.start_prog = Server.start_prog.
 Proof. repeat split; reflexivity. Qed.
